@@ -176,7 +176,7 @@ def check(pid: str, tier: str, seed: int):
     n_edges = 0
     with C.Scratch():
         impl = C.import_impl()
-        gen = LG.LangGen(rng, dup_assoc_names=0.25)
+        gen = LG.LangGen(rng, dup_assoc_names=0.25, reuse_fields=0.35)
         n = 260 if tier == 'quick' else 4000
         for i in range(n):
             L = gen.gen()
